@@ -7,6 +7,7 @@ from .. import corr
 from ..pools import RecPool
 
 STREAMS = ["sig", "shipped", "chain", "reuse"]
+REGENERATE_SRC = True
 RULE = ("sig: classes generated with exec from random signatures (positional, defaulted, *args, keyword-only, "
         "**kwargs), as Controller / PoolDecorator / Pool subclasses, with or without @service, arguments split over "
         "1..4 curry calls incl. unknown / duplicated names, 'target', too many positionals, Pool instances; shipped: "
